@@ -148,10 +148,42 @@ def resume_oracle(o):
     return fails
 
 
+def down_cause_oracle(o):
+    """C11: a transient fault never takes a connection down: DOWN needs a cause - the peer closed or half-closed
+    (read returned 0 / hang-up reported), the user forced a close, the owner destroyed the connection, or a write
+    failed with EPIPE/ECONNRESET"""
+    fails = []
+    cause = False
+    for i in range(len(o.blocks)):
+        if i < o.n:
+            w = o.ops[i].split()
+            if w[0] in ("peerClose", "peerShutWr", "ownerDestroy", "peerReset"):
+                cause = True
+        for a in o.acts:
+            if a.step == i and a.name in ("forceClose", "forceCloseDelay"):
+                cause = True
+        if i < o.n:
+            for r in o.env(i, "readv"):
+                if r[2] == "0":
+                    cause = True
+            for r in o.env(i, "write"):
+                if r[3] in conn_oracle.FATAL:
+                    cause = True
+        for l in o.events(i):
+            if l.startswith("abort") or l.startswith("uaf"):
+                return fails
+            if l == "cb DOWN" and not cause:
+                faults = [" ".join(x[1:]) for x in (o.env(i, "write") + o.env(i, "readv")) if not x[-1].lstrip("-").isdigit()]
+                fails.append(("down-without-cause", "step %d `%s`: the connection went down although the peer did not close, nobody "
+                              "forced a close and no fatal write error occurred (faults in this step: %s)" % (i, o.ops[i] if i < o.n else "?", faults or "none")))
+                return fails
+    return fails
+
+
 class ConnPart(ConnProp):
     id = "C11"
     oracles = [conn_oracle.stream_oracle, conn_oracle.read_oracle, conn_oracle.updown_oracle, conn_oracle.callback_oracle,
-               conn_oracle.spin_oracle, resume_oracle]
+               conn_oracle.spin_oracle, resume_oracle, down_cause_oracle]
 
 
 CONN = ConnPart()
@@ -631,7 +663,9 @@ class Prop:
                 f = judge(ls, b)
                 return bool(f) and f[0][0] == kind
             small = ddmin(lines, still, budget=80) if origin != "replay" else lines
-            ctx.oracle_failures.append((Case("client", [head] + small, origin), kind, fails[0][1] + " [client/%s]" % flavour))
+            bs, _ = ctx.run_impl(exe, Case("client", small, meta={"argv": []}), timeout=60)
+            f2 = [f for f in judge(small, bs) if f[0] == kind] or fails
+            ctx.oracle_failures.append((Case("client", [head] + small, origin), kind, f2[0][1] + " [client/%s]" % flavour))
         elif mismatch:
             ctx.mismatches.append((Case("client", [head] + lines, origin), mismatch + " [client/%s]" % flavour))
         return fails, mismatch, impl
@@ -672,7 +706,9 @@ class Prop:
                 f = acceptor_oracle(ls, b)
                 return bool(f) and f[0][0] == kind
             small = ddmin(lines, still, keep_prefix=0, budget=100) if origin != "replay" else lines
-            ctx.oracle_failures.append((Case("acceptor", [head] + small, origin), kind, fails[0][1] + " [acceptor/%s/%s]" % (flavour, be)))
+            bs, _ = ctx.run_impl(exe, Case("acceptor", small, meta={"argv": [be]}), timeout=60)
+            f2 = [f for f in acceptor_oracle(small, bs) if f[0] == kind] or fails
+            ctx.oracle_failures.append((Case("acceptor", [head] + small, origin), kind, f2[0][1] + " [acceptor/%s/%s]" % (flavour, be)))
         elif mismatch:
             ctx.mismatches.append((Case("acceptor", [head] + lines, origin), mismatch + " [acceptor/%s/%s]" % (flavour, be)))
         return fails, mismatch, impl
